@@ -322,6 +322,16 @@ def fixed_scenarios():
                       "selected": True, "plan": [kind]})
     out.append(dict(idx=4, family="fixed", retries=0, ss=True, sf=True, fail_fast=True, tests=tests,
                     bin_tests=bt, overrides=[], scripts=[], threads=1))
+    # a re-run into a store directory that already holds a (longer) report
+    bt = {"alpha::t1": {}}
+    tests = []
+    for i, kind in enumerate(["pass", "fail"]):
+        name = f"r{i}"
+        bt["alpha::t1"][name] = {"attempts": [mk_attempt(name, 1, kind, r)]}
+        tests.append({"bin": "alpha::t1", "name": name, "kind": kind, "ss": True, "sf": True,
+                      "selected": True, "plan": [kind]})
+    out.append(dict(idx=6, family="fixed", retries=0, ss=True, sf=True, fail_fast=False, tests=tests,
+                    bin_tests=bt, overrides=[], scripts=[], threads=1, prefill_junit=True))
     # a shutdown signal while the (only) setup script runs; the script exits 0: the run is cancelled
     # before any test finished -- "0/3 tests run" in the summary, exit status 100, no testcase but the script's
     bt = {"alpha::t1": {}}
@@ -415,6 +425,15 @@ def run_one(rig, sc, timeout=90):
     jp = junit_path(sc["profile"])
     if os.path.exists(jp):
         os.remove(jp)
+    if sc.get("prefill_junit"):
+        # an older, much longer report is already at the configured path (a re-run into the same store
+        # directory): the new report must replace it completely
+        os.makedirs(os.path.dirname(jp), exist_ok=True)
+        old_cases = "".join(f'<testcase name="stale{i}" classname="old" time="0.1"><system-out>{"x" * 500}</system-out></testcase>'
+                            for i in range(200))
+        with open(jp, "w") as f:
+            f.write('<?xml version="1.0" encoding="UTF-8"?>\n<testsuites name="old" tests="200" failures="0" errors="0">'
+                    f'<testsuite name="old" tests="200" disabled="0" errors="0" failures="0">{old_cases}</testsuite></testsuites>\n')
     res = use.run(sc["puppet"], sc["cfg"], args=["--profile", sc["profile"], "--test-threads", str(sc["threads"])],
                   signals=signals, timeout=timeout, env_extra=env_extra)
     junit = None
